@@ -5,6 +5,7 @@
 //! trusted: R6: `for (idx, hop) in hops.rev().enumerate()` and `for (i, blinded_hop) in hops.iter().enumerate()` become index loops; push_back / push_front are external_body wrappers of Vec::push / Vec::insert(0, _) with the sequence semantics
 //! trusted: env: APIError::InvalidRoute carries no message (rewrite of `err: <string>`); RecipientOnionFields skeleton {total_mpp_amount_msat, custom_tlvs}; PublicKey, PaymentPreimage, InvoiceRequest, TrampolineOnionPacket, BlindedHop opaque/skeleton; assume_specification for Option::take (std definition)
 //! trusted: process_failure_packet: AttributionData skeleton with external_body shift_right (verified for the real type in u14 / Kani); update_attribution_data external_body (leaves attribution data present and the data untouched: get_or_insert + update); update_fail_htlc_wire_len external_body returning the uninterpreted wire size (a function of the data length and the presence of attribution data); R8: `if let Some(ref mut x) = e { .. }` -> match on &mut e
+//! trusted: R15: decode_next_hop: the statements up to the HMAC test verbatim as a function (key derivation external_body over uninterpreted rho_of/mu_of; HmacEngine is a stub that records key and the concatenation of its inputs in ghost fields; Hmac::from_engine is the uninterpreted hmac_sha256 of those; fixed_time_eq is equality); decrypting and parsing the payload after the gate are dropped and not claimed
 //! assume: every hop's fee_msat <= 21e17 (the total supply in msat): without it `cur_value_msat += hop.fee_msat()` can overflow u64 before the limit test (observation O5 in DESIGN)
 //! assume: the contract is for a path without blinded or trampoline tail (blinded_tail is None) whose final hop carries a non-zero amount; the other arms are kept in the verified text but unreachable under this precondition and not claimed
 use vstd::prelude::*;
@@ -206,6 +207,50 @@ pub fn update_attribution_data(onion_error_packet: &mut OnionErrorPacket, shared
     > LN_MAX_MSG_LEN
 //@with
     >= LN_MAX_MSG_LEN
+//@end
+
+// ---- peeling: the HMAC gate of decode_next_hop covers the hop data and the payment hash (R15 slice; HMAC-SHA256 uninterpreted) ----
+#[derive(Clone, Copy)] pub struct PaymentHash(pub [u8; 32]);
+pub uninterp spec fn mu_of(shared_secret: [u8; 32]) -> [u8; 32];
+pub uninterp spec fn rho_of(shared_secret: [u8; 32]) -> [u8; 32];
+pub uninterp spec fn hmac_sha256(key: [u8; 32], data: Seq<u8>) -> [u8; 32];
+#[verifier::external_body] pub fn gen_rho_mu_from_shared_secret(shared_secret: &[u8; 32]) -> (r: ([u8; 32], [u8; 32])) ensures r.0 == rho_of(*shared_secret), r.1 == mu_of(*shared_secret) { unimplemented!() }
+pub struct HmacEngine { pub key: Ghost<[u8; 32]>, pub data: Ghost<Seq<u8>> }
+impl HmacEngine {
+    #[verifier::external_body] pub fn new(key: &[u8; 32]) -> (r: HmacEngine) ensures r.key@ == *key, r.data@ == Seq::<u8>::empty() { unimplemented!() }
+    #[verifier::external_body] pub fn input(&mut self, bytes: &[u8]) ensures final(self).key@ == old(self).key@, final(self).data@ == old(self).data@ + bytes@ { unimplemented!() }
+}
+pub struct Hmac { pub v: [u8; 32] }
+impl Hmac {
+    #[verifier::external_body] pub fn from_engine(e: HmacEngine) -> (r: Hmac) ensures r.v == hmac_sha256(e.key@, e.data@) { unimplemented!() }
+    #[verifier::external_body] pub fn to_byte_array(self) -> (r: [u8; 32]) ensures r == self.v { unimplemented!() }
+}
+#[verifier::external_body] pub fn fixed_time_eq(a: &[u8; 32], b: &[u8; 32]) -> (r: bool) ensures r == (*a == *b) { unimplemented!() }
+pub enum LocalHTLCFailureReason { InvalidOnionHMAC }
+pub enum OnionDecodeErr { Malformed { err_msg: &'static str, reason: LocalHTLCFailureReason } }
+//@extract lightning/src/ln/onion_utils.rs :: fn decode_next_hop
+//@rw R15
+    fn decode_next_hop<T, R: ReadableArgs<T>, N: NextPacketBytes>($params:any) -> $ret { $gate:any let mut chacha = $c; $rest:any }
+//@with
+    fn onion_hmac_gate(shared_secret: [u8; 32], hop_data: &[u8], hmac_bytes: [u8; 32], payment_hash: Option<PaymentHash>) -> Result<(), OnionDecodeErr> {
+        $gate
+        Ok(())
+    }
+//@rw R5
+    HmacEngine::<Sha256>::new(
+//@with
+    HmacEngine::new(
+//@rw R8 ?
+    &tag.0[..]
+//@with
+    tag.0.as_slice()
+//@ret r
+//@ensures P C14 a-hop-accepts-a-packet-only-if-its-hmac-under-the-hops-mu-key-covers-the-hop-data-and-the-payment-hash-it-arrived-with
+    r is Ok <==> hmac_bytes == hmac_sha256(mu_of(shared_secret), if payment_hash is Some { hop_data@ + payment_hash->Some_0.0@ } else { hop_data@ }),
+//@mutant payment_hash_not_authenticated
+    if let Some(tag) = payment_hash { hmac.input(&tag.0[..]); }
+//@with
+    
 //@end
 }
 fn main() {}
